@@ -463,7 +463,7 @@ def run(tier: str) -> int:
     rep = Reporter("C12", tier, "translation_validation")
     wd = Workdir()
     counts = {}
-    K = 6 if tier == "quick" else 12
+    K = 6 if tier == "quick" else 16
     try:
         for key, seq, hier, flat, templates in TREES:
             th, eh = compile_design(wd, design("Top", hier), "Top", "c12h")
@@ -509,7 +509,7 @@ def run(tier: str) -> int:
                 rep.violation(f"behaviour|{key}", f"{key}: hierarchical design differs from the inlined one at clock {info['clock']}: {info['hierarchical']} vs {info['inlined']} for inputs {info['trace'][-1]}", {"vhdl_hier": th, "vhdl_flat": tf, **info})
             else:
                 rep.inconclusive_query(f"{key}: {info}")
-        run_connections(rep, wd, [2, 3] if tier == "quick" else [1, 2, 3, 4], counts)
+        run_connections(rep, wd, [2, 3] if tier == "quick" else [1, 2, 3, 4, 5, 8], counts)
         rep.stats.units |= {"cohdl._core._context.Entity.__init__", "frontend ConvertPythonInstance.apply (templates)", "backend EntityInst (port map), Library.from_top_entity (unit order)", "_vhdl_assembler (ir.Entity / EntityTemplate)"}
         rep.assumptions += ["bounded for clocked trees: K=%d clocks from power-up, all registers have declared defaults; combinational trees: all inputs" % K,
                             "connection matrix: every ordered pair of Bit/BitVector/Unsigned/Signed (listed widths) bound through an input and through an output port of a pass-through leaf: rejected, or legal text equal to the plain assignment dst <<= src for all values; accepted although the assignment is rejected = violation",
